@@ -189,7 +189,7 @@ PROPS = {
         "pure": [{"kinds": ["dur", "claim", "valfee", "addsec"], Q: 2000, T: 200000}],
         "corpus": ["witness", "regress"],
         "relevant": rel_kinds(("I", "K", "B", "E", "D str."), lambda k: k.startswith("str.")),
-        "level_text": "Proof: c11_release_amount (before zero time exactly min(deposit, rate x whole seconds), at/after it the whole remainder), c11_never_faster, c11_zero_time_on_create (now + floor(D/r) s), c11_solvency (every stored stream in every state of every run: rate>=1, last<=now, rate x floor(zero-last) <= deposit or empty-and-expired), c11_remainder_covers_rest, c11_cancel_refunds_unreleased.",
+        "level_text": "Proof: c11_release_amount (before zero time exactly min(deposit, rate x whole seconds), at/after it the whole remainder), c11_never_faster, c11_zero_time_on_create (now + floor(D/r) s), c11_topup_extends_zero_time (running: zero + floor(top-up/r) s, last release untouched; run out: settled, clock restarted), c11_claim_restarts_the_clock and c11_rate_change_restarts_the_clock (every release stores the block time as last release; a rate change recomputes the zero time from the settled remainder), c11_solvency (every stored stream in every state of every run: rate>=1, last<=now, rate x floor(zero-last) <= deposit or empty-and-expired), c11_remainder_covers_rest, c11_cancel_refunds_unreleased.",
         "level_note": STR_NOTE,
         "assumptions": ["RateQ: BankSane, no stream unclaimed for 2^63 ns (~292 years), block times non-negative and non-decreasing", "Duration.Seconds() float rounding not modelled: exact unless the nanosecond fraction is within 2^-20 of a full second and the gap exceeds 48 days"],
     },
@@ -198,7 +198,7 @@ PROPS = {
         "pure": [{"kinds": ["dur", "claim", "valfee", "addsec"], Q: 2000, T: 200000}],
         "corpus": ["witness", "regress"],
         "relevant": rel_kinds(("I", "K", "B", "E", "D str."), lambda k: k.startswith("str.")),
-        "level_text": "Proof: c12_arithmetic_never_panics (CalculateValidatorFee total for every amount and fee in [0,1]; duration and claim arithmetic are total functions), c12_claim_succeeds and c12_cancel_succeeds (for every funded stream in every state of every run the claim / the sender's cancel returns ok), c12_fee_rate_always_valid.",
+        "level_text": "Proof: c12_arithmetic_never_panics (CalculateValidatorFee total for every amount and fee in [0,1]; duration and claim arithmetic are total functions), c12_claim_succeeds and c12_cancel_succeeds (for every funded stream in every state of every run the claim / the sender's cancel returns ok), c12_topup_succeeds (every top-up the non-vesting sender holds the coins for returns ok, on a running stream and on one that has run out, within the module's 292-year limit per top-up), c12_fee_rate_always_valid.",
         "level_note": STR_NOTE + " Top-ups whose resulting duration exceeds ~292 years are rejected with an error by design of the repair (not a panic, funds not stranded).",
         "assumptions": ["RateQ as in C11", "Small: every balance below 2^255 (2^254 for cancel) so that the bank's 256-bit integers cannot overflow"],
     },
